@@ -3,6 +3,7 @@ package checks
 import (
 	"bytes"
 	"fmt"
+	"github.com/deepteams/webp/animation"
 	"image"
 
 	webp "github.com/deepteams/webp"
@@ -209,6 +210,16 @@ func checkEncodedFile(c *ev.Ctx, cs ev.Case, data []byte, want *image.NRGBA, src
 		if got := img.Tight(toNRGBA(dec)); !bytes.Equal(got, lp) {
 			c.Violate(cs, "decoded-colours-differ", map[string]string{"result_type": "ycbcr"},
 				"the *image.YCbCr returned by Decode reports other colours than libwebp decodes: "+firstPixelDiff(got, lp, W), rep())
+		}
+		// the same file through the package's other decoding route: the animation reader hands every frame out as
+		// *image.NRGBA, i.e. it converts the colours itself
+		if an, e := animation.DecodeBytes(data); e == nil && an.DecodeFrames() == nil && len(an.Frames) == 1 {
+			if fr, ok := an.Frames[0].Image.(*image.NRGBA); ok && fr.Rect.Dx() == W && fr.Rect.Dy() == H {
+				if got := img.Tight(fr); !bytes.Equal(got, lp) {
+					c.Violate(cs, "decoded-colours-differ", map[string]string{"result_type": "animation-frame-nrgba"},
+						"the *image.NRGBA that animation.DecodeFrames returns for this lossy picture has other colours than libwebp decodes: "+firstPixelDiff(got, lp, W), rep())
+				}
+			}
 		}
 		// x/image on the bare payload
 		if xm, e := ximage.DecodeVP8(bs.Data, false); e != nil {
